@@ -1,6 +1,8 @@
 package plush
 
 import (
+	"sync"
+
 	"github.com/gobuffalo/plush/v5/ast"
 	"github.com/gobuffalo/plush/v5/helpers/hctx"
 
@@ -12,6 +14,10 @@ import (
 type Template struct {
 	Input   string
 	program *ast.Program
+	// parseMoot guards the lazy parse: a Template built as a literal
+	// (&Template{Input: ...}) is parsed by its first Exec, and several
+	// goroutines may make that first call at once
+	parseMoot sync.Mutex
 }
 
 // NewTemplate from the input string. Adds all of the
@@ -34,6 +40,9 @@ func NewTemplate(input string) (*Template, error) {
 // as a successful result is cached and is used on subsequent
 // uses.
 func (t *Template) Parse() error {
+	t.parseMoot.Lock()
+	defer t.parseMoot.Unlock()
+
 	if t.program != nil {
 		return nil
 	}
@@ -54,6 +63,7 @@ func (t *Template) Exec(ctx hctx.Context) (string, error) {
 		return "", err
 	}
 
+	// Parse has returned: the program is set and is never written again
 	ev := compiler{
 		ctx:     ctx,
 		program: t.program,
@@ -65,6 +75,9 @@ func (t *Template) Exec(ctx hctx.Context) (string, error) {
 
 // Clone a template. This is useful for defining helpers on per "instance" of the template.
 func (t *Template) Clone() *Template {
+	t.parseMoot.Lock()
+	defer t.parseMoot.Unlock()
+
 	t2 := &Template{
 		Input:   t.Input,
 		program: t.program,
